@@ -95,14 +95,28 @@ func genC07(e *emitter, tier string) {
 		}
 		e.emit(opCase("squeeze-special", "Squeeze", nil, []*TJ{data(s), vals("i64", []int{}, 0)}, nil))
 		// Unsqueeze: every axes list of length 1..2 over [-R-1, R]
-		for l := 1; l <= al; l++ {
+		for l := 1; l <= 3; l++ {
 			RR := r + l
 			for _, ax := range intLists(rangeInts(-RR-1, RR), l) {
 				if len(ax) != l {
 					continue
 				}
-				if l == 3 && (ax[0]+ax[1]+ax[2]+k)%3 != 0 {
-					continue
+				if l == 3 {
+					norm := func(a int) int {
+						if a < 0 {
+							return a + RR
+						}
+						return a
+					}
+					// always: duplicates that are not neighbours in the caller's order; otherwise a sample
+					sepDup := norm(ax[0]) == norm(ax[2]) && norm(ax[1]) != norm(ax[0])
+					if tier == "thorough" {
+						if !sepDup && (ax[0]+ax[1]+ax[2]+k)%3 != 0 {
+							continue
+						}
+					} else if r > 2 || (!sepDup && (ax[0]*7+ax[1]*3+ax[2]+k)%11 != 0) {
+						continue
+					}
 				}
 				e.emit(opCase("unsqueeze", "Unsqueeze", nil, []*TJ{data(s), i64T(ax)}, nil))
 			}
